@@ -109,6 +109,10 @@ type inst interface {
 	// two results must be equal.
 	SetRepeat(on bool)
 	Soft() []*harnessViol
+	// Pipeline runs the per-report steps of several reports on this one
+	// instance in the given interleaving, on the Go values (nothing is
+	// marshalled between the steps except for snapshots).
+	Pipeline(vk *VerifyKey, reps []pipeReport, schedule []int) (accepted []bool, agg any, err error)
 	// Decode unmarshals b as message type typ (for an input share of
 	// aggregator id) and checks the re-marshal identity.
 	Decode(typ string, b []byte, id uint) error
@@ -289,6 +293,139 @@ func (a *adapter[P, M, A, AS, IS, OS, PS, ST, PP]) Decode(typ string, b []byte, 
 		panic("unknown message type " + typ)
 	}
 	return err
+}
+
+// pipeReport is one report of an interleaved history.
+type pipeReport struct {
+	m      any
+	nonce  Nonce
+	rand   []byte
+	leader []byte // if not nil: the leader's input share is decoded from these (altered) bytes
+	stages int    // 3 = run to completion; 1 or 2 = abandoned after PrepInit / PrepSharesToPrep
+}
+
+// Pipeline: entry k of schedule advances report schedule[k] by one stage
+// (0: Shard + PrepInit at every aggregator, 1: PrepSharesToPrep, 2: PrepNext at
+// every aggregator + AggregateUpdate). Every object a report owns (prep states,
+// prep shares, prep message) is marshalled when it is created and again right
+// before it is used: the steps of the other reports in between must not have
+// changed it.
+func (a *adapter[P, M, A, AS, IS, OS, PS, ST, PP]) Pipeline(vk *VerifyKey, reps []pipeReport, schedule []int) ([]bool, any, error) {
+	n := a.l.shares
+	name := a.l.name
+	type live struct {
+		stage   int
+		dead    bool
+		sts     []*ST
+		pss     []PS
+		msg     *PrepMessage
+		stSnap  [][]byte
+		psSnap  [][]byte
+		msgSnap []byte
+	}
+	lv := make([]live, len(reps))
+	accepted := make([]bool, len(reps))
+	aggs := make([]AS, n)
+	for i := range aggs {
+		aggs[i] = a.v.AggregateInit()
+	}
+	done := uint(0)
+	check := func(r *live, what string) error {
+		for i := range r.sts {
+			if e := same(name, "pipeline", "PrepState", r.sts[i], r.stSnap[i]); e != nil {
+				return fmt.Errorf("%w (checked before %s)", e, what)
+			}
+			if e := same(name, "pipeline", "PrepShare", &r.pss[i], r.psSnap[i]); e != nil {
+				return fmt.Errorf("%w (checked before %s)", e, what)
+			}
+		}
+		if r.msg != nil {
+			if e := same(name, "pipeline", "PrepMessage", r.msg, r.msgSnap); e != nil {
+				return fmt.Errorf("%w (checked before %s)", e, what)
+			}
+		}
+		return nil
+	}
+	for _, k := range schedule {
+		r := &lv[k]
+		rep := &reps[k]
+		if r.dead || r.stage >= rep.stages {
+			continue
+		}
+		switch r.stage {
+		case 0:
+			pub, ins, err := a.v.Shard(rep.m.(M), &rep.nonce, rep.rand)
+			if err != nil {
+				return nil, nil, &opErr{"Shard", err}
+			}
+			if rep.leader != nil {
+				is, err := dec[IS](&a.pp, "InputShare", rep.leader, 0)
+				if err != nil {
+					r.dead = true
+					break
+				}
+				ins[0] = *is
+			}
+			r.sts, r.pss = make([]*ST, n), make([]PS, n)
+			r.stSnap, r.psSnap = make([][]byte, n), make([][]byte, n)
+			for i := 0; i < n && !r.dead; i++ {
+				st, ps, err := a.v.PrepInit(vk, &rep.nonce, uint8(i), pub, ins[i])
+				if err != nil {
+					r.dead = true
+					break
+				}
+				r.sts[i], r.pss[i] = st, *ps
+				if r.stSnap[i], err = enc("PrepState", st); err != nil {
+					return nil, nil, err
+				}
+				if r.psSnap[i], err = enc("PrepShare", ps); err != nil {
+					return nil, nil, err
+				}
+			}
+			if r.dead {
+				r.sts, r.pss = nil, nil
+			}
+		case 1:
+			if err := check(r, "PrepSharesToPrep"); err != nil {
+				return nil, nil, err
+			}
+			msg, err := a.v.PrepSharesToPrep(r.pss)
+			if err != nil {
+				r.dead = true
+				break
+			}
+			r.msg = msg
+			if r.msgSnap, err = enc("PrepMessage", msg); err != nil {
+				return nil, nil, err
+			}
+		case 2:
+			if err := check(r, "PrepNext"); err != nil {
+				return nil, nil, err
+			}
+			outs := make([]*OS, n)
+			for i := 0; i < n; i++ {
+				out, err := a.v.PrepNext(r.sts[i], r.msg)
+				if err != nil {
+					r.dead = true
+					break
+				}
+				outs[i] = out
+			}
+			if !r.dead {
+				for i := 0; i < n; i++ {
+					a.v.AggregateUpdate(&aggs[i], outs[i])
+				}
+				accepted[k] = true
+				done++
+			}
+		}
+		r.stage++
+	}
+	res, err := a.v.Unshard(aggs, done)
+	if err != nil {
+		return accepted, nil, &opErr{"Unshard", err}
+	}
+	return accepted, any(*res), nil
 }
 
 // Soft drains the findings that do not stop the run (the adapter went on
